@@ -20,8 +20,8 @@ TEXT = {
          "no-frac callee contracts assumed here and proved in unit nofrac; bit_vector bridge lemmas are proved, not assumed"),
  "C07": ("Verus proves %, checked_rem, checked_rem_euclid, rem_euclid for all ten families, and for a primitive-integer divisor checked_rem_int, `fixed % integer`, wrapping/overflowing_rem_int, overflowing/wrapping/plain rem_euclid_int (signed: bit-level proof at every width); Kani proves the Euclidean-division forms on 8-bit layouts outside the region of the recorded finding F-C07-div-euclid",
          "div_euclid family: known finding (region carved out, witness replayed each run), Kani 8-bit only; signed checked_rem_euclid_int (closure in Option::map) Kani 8-bit only"),
- "C08": ("BOUNDED (level other): Kani runs the real parsers on every byte string up to a stated length (9 bytes; 6/7 for decimal), every radix and all nine 8-bit layouts symbolic, against the exactly rounded literal, the overflow/wrap policy and an independent grammar; complete within the bound, never counted as proof.  Verus proves leaf functions only (Mul10, mul_hi_lo)",
-         "bound on string length and width (8-bit types); Kani's model of Rust; two genuine defects found this way were fixed (known_findings.json)"),
+ "C08": ("Level other, two layers.  Verus (all inputs, all widths, every (int_nbits, frac_nbits)): every width-specific function of the parser (dec_to_bin x5 correctly rounded, mul_hi_lo, div_tie) and the whole recombination layer of impl_from_str! (from_str_iN / from_str_uN / get_int_fracN / get_intN / get_fracN, N = 8..128: result = wrap(+-A), flag = !fits(+-A) for the correctly rounded magnitude A expressed through the value functions of the digit strings).  BOUNDED (Kani): the tokeniser and the generic digit loops, which the Verus layer assumes, run for real on every byte string up to a stated length (9 bytes; 6/7 for decimal), every radix, all nine 8-bit layouts symbolic, against the exactly rounded literal, the overflow/wrap policy and an independent grammar; complete within the bound, never counted as proof",
+         "the digit loops and parse_bounds (iterator adapters) are assumed contracts in the Verus layer and bounded (8-bit types, string length) in the Kani layer; Kani's model of Rust; two genuine defects found this way were fixed (known_findings.json)"),
  "C09": ("BOUNDED (level other): Kani runs the real formatters on every 8-bit value x all nine layouts: default output correctly rounded and round-trip safe, {:.p} (p <= 9) exactly rounded, flags and width (also together with a precision) only pad/prefix, radix-2^k outputs exact",
          "8-bit layouts, precision <= 9, from_utf8 stubbed; the early-trim defect found this way was fixed (known_findings.json)"),
  "C11": ("Both back ends verify under the checking semantics (overflow checks, shift checks, debug assertions of the dev-profile expansion); this check owns the panic-class obligations of all Verus units and of the listed Kani harnesses: when every such site is discharged under the function's precondition, no check can fire and the unchecked build computes the same value",
